@@ -178,13 +178,43 @@ Definition delete (disp : string -> string -> daction) (s : parent) (nm : string
 Definition slot_of (n : fnode) : slot := mkS (f_name n) (f_id n) (f_pay n).
 Definition regroup (f : list fnode) : mirror :=
   fold_left (fun m n => mset (f_kind n) (mget (f_kind n) m ++ [slot_of n]) m) f [].
-Definition reopen (s : parent) : parent := mkP (regroup (p_file s)) (p_file s) (p_next s).
+
+(* cgi_read_base (cgns_internals.c): the Zone_t and the ParticleZone_t children of a base are ordered with
+   qsort(childlist, n, sizeof(_childnode_t), sort_childnode_names), i.e. strcmp on the node names (unsigned bytes);
+   sibling names are distinct, so the result does not depend on the sorting algorithm.  [sk k] says whether the
+   arrays of kind k are sorted on read under the parent at hand ([cgns_sorted] for the current sources). *)
+Fixpoint str_leb (a b : string) : bool :=
+  match a, b with
+  | EmptyString, _ => true
+  | String _ _, EmptyString => false
+  | String x a', String y b' =>
+      let nx := Ascii.N_of_ascii x in
+      let ny := Ascii.N_of_ascii y in
+      if N.ltb nx ny then true else if N.ltb ny nx then false else str_leb a' b'
+  end.
+Fixpoint insert_slot (x : slot) (l : list slot) : list slot :=
+  match l with
+  | [] => [x]
+  | y :: r => if str_leb (s_name x) (s_name y) then x :: l else y :: insert_slot x r
+  end.
+Definition sort_slots (l : list slot) : list slot := fold_right insert_slot [] l.
+Definition cgns_sorted (pl k : string) : bool :=
+  String.eqb pl "CGNSBase_t" && (String.eqb k "Zone_t" || String.eqb k "ParticleZone_t").
+
+Definition read_group (sk : string -> bool) (k : string) (f : list fnode) : list slot :=
+  let l := map slot_of (filter (fun n => String.eqb (f_kind n) k) f) in
+  if sk k then sort_slots l else l.
+Definition resort (sk : string -> bool) (m : mirror) : mirror :=
+  map (fun kl => (fst kl, if sk (fst kl) then sort_slots (snd kl) else snd kl)) m.
+Definition reopen (sk : string -> bool) (s : parent) : parent :=
+  mkP (resort sk (regroup (p_file s))) (p_file s) (p_next s).
 
 (* ---- what the API reports: (name, payload) in index order *)
 Definition view_session (s : parent) (k : string) : list (string * Z) :=
   map (fun sl => (s_name sl, s_pay sl)) (mget k (p_mir s)).
-Definition view_file (s : parent) (k : string) : list (string * Z) :=
-  map (fun n => (f_name n, f_pay n)) (filter (fun n => String.eqb (f_kind n) k) (p_file s)).
+(* ... and what it reports after a fresh open of the file as it is now *)
+Definition view_file (sk : string -> bool) (s : parent) (k : string) : list (string * Z) :=
+  map (fun sl => (s_name sl, s_pay sl)) (read_group sk k (p_file s)).
 
 Fixpoint vlookup (nm : string) (v : list (string * Z)) : option Z :=
   match v with
@@ -200,19 +230,19 @@ Fixpoint vindex (nm : string) (v : list (string * Z)) : option nat :=
 (* ---- histories *)
 Inductive op := OWrite (k nm : string) (p : Z) | OUpdate (k nm : string) (p : Z) | ODelete (nm : string) | OReopen.
 
-Definition step (disp : string -> string -> daction) (s : parent) (o : op) : parent * Z :=
+Definition step (sk : string -> bool) (disp : string -> string -> daction) (s : parent) (o : op) : parent * Z :=
   match o with
   | OWrite k nm p => let '(s', st, _) := write s k nm p in (s', st)
   | OUpdate k nm p => let '(s', st, _) := write_inplace s k nm p in (s', st)
   | ODelete nm => delete disp s nm
-  | OReopen => (reopen s, 0)
+  | OReopen => (reopen sk s, 0)
   end.
 
-Fixpoint run (disp : string -> string -> daction) (s : parent) (ops : list op) : parent * list Z :=
+Fixpoint run (sk : string -> bool) (disp : string -> string -> daction) (s : parent) (ops : list op) : parent * list Z :=
   match ops with
   | [] => (s, [])
-  | o :: r => let '(s1, st) := step disp s o in
-              let '(s2, sts) := run disp s1 r in (s2, st :: sts)
+  | o :: r => let '(s1, st) := step sk disp s o in
+              let '(s2, sts) := run sk disp s1 r in (s2, st :: sts)
   end.
 
 (* ---- the ideal tree: name -> (kind, payload) *)
@@ -257,10 +287,10 @@ Definition order_safe (s : parent) (o : op) : bool :=
                      end
   | _ => true
   end.
-Fixpoint hist_order_safe (disp : string -> string -> daction) (s : parent) (ops : list op) : bool :=
+Fixpoint hist_order_safe (sk : string -> bool) (disp : string -> string -> daction) (s : parent) (ops : list op) : bool :=
   match ops with
   | [] => true
-  | o :: r => order_safe s o && hist_order_safe disp (fst (step disp s o)) r
+  | o :: r => order_safe s o && hist_order_safe sk disp (fst (step sk disp s o)) r
   end.
 
 Definition op_names_ok (kok nok : string -> bool) (o : op) : bool :=
@@ -278,9 +308,10 @@ Inductive sact :=
 Inductive drow := DRow (tests : list dtest) (acts : list sact) (extra : list string) | DUnparsedRow (why : string).
 Inductive dblock := DBlock (parents : list string) (pty : string) (rows : list drow) | DUnparsedBlock (why : string).
 Inductive ndrow := ND (parent : string) (t : dtest) | NDUnparsed (why : string).
-Inductive wrow := WRow (fn pvar : string) (cnts arrs : list string) (free ty : string) (ret : bool)
+Inductive wrow := WRow (fn pvar : string) (cnts arrs : list string) (free ty : string) (ret : bool) (made : string)
                 | WOther (fn why : string).
 Inductive atail := ATail (fn ty var free : string) | ATailOther (fn why : string).
+Inductive nrow := NRow (fn resolver var how : string).
 
 Definition smem := Goto.mem.
 
@@ -544,7 +575,10 @@ Definition pair_of_struct (ss : Goto.structs_t) (cnt arr ty : string) : bool :=
                      match sassoc _ arr (snd st) with Some (Goto.FPtr t) => String.eqb t ty | _ => false end) ss.
 Definition wrow_ok (ss : Goto.structs_t) (fs : list (string * string)) (r : wrow) : bool :=
   match r with
-  | WRow _ _ cnts arrs free ty _ =>
+  | WRow fn _ cnts arrs free ty _ made =>
+      (* the database id of the re-created / appended node is stored in the slot (cg_subreg_write leaves the creation
+         to its three callers) *)
+      (String.eqb made "slot" || String.eqb fn "cg_subreg_write") &&
       all_eqb cnts && all_eqb arrs && Nat.eqb (List.length cnts) 7 && Nat.eqb (List.length arrs) 7
       && match cnts, arrs with c :: _, a :: _ => pair_of_struct ss c a ty | _, _ => false end
       && (if String.eqb free "" then String.eqb ty "cgns_famname" else frees_type fs free ty)
@@ -574,4 +608,17 @@ Definition bad_dblocks (ss : Goto.structs_t) (fs : list (string * string)) (nd :
   List.concat (map (fun b => if dblock_ok ss fs nd gt b then [] else
                              match b with DBlock (p :: _) _ _ => [p] | DBlock [] _ _ => ["?"] | DUnparsedBlock w => [w] end) dt).
 Definition bad_wrows (ss : Goto.structs_t) (fs : list (string * string)) (t : list wrow) : list string :=
-  List.concat (map (fun r => if wrow_ok ss fs r then [] else match r with WRow f _ _ _ _ _ _ => [f] | WOther f _ => [f] end) t).
+  List.concat (map (fun r => if wrow_ok ss fs r then [] else match r with WRow f _ _ _ _ _ _ _ => [f] | WOther f _ => [f] end) t).
+
+(* node-context writers ( X = cgi_Y_address(CG_MODE_WRITE, ...) ): the id of the node they create must end up in X
+   ("slot": cgi_new_node(..., &X->id ...); "helper": a cgi_write_* function that fills X->id); "none" is right only for
+   the resolvers of plain values and single children that are found again by label, not by a stored id *)
+Definition expected_none : list string :=
+  ["cg_famname_write"; "cg_governing_write"; "cg_diffusion_write"; "cg_particle_governing_write"; "cg_conversion_write";
+   "cg_dataclass_write"; "cg_gridlocation_write"; "cg_ordinal_write"; "cg_ptset_write"].
+Definition nrow_ok (r : nrow) : bool :=
+  match r with NRow fn _ _ how =>
+    String.eqb how "slot" || String.eqb how "helper" || (String.eqb how "none" && smem fn expected_none)
+  end.
+Definition bad_nrows (t : list nrow) : list (string * string) :=
+  List.concat (map (fun r => if nrow_ok r then [] else match r with NRow fn _ _ how => [(fn, how)] end) t).
